@@ -217,5 +217,13 @@ def classify(f, ctx):
     tags = make_tags(case, world)
     exp = expected(case, world, tags)
     r = KF.attribute(f, lambda caching: run(case, world, caching, tags=tags)[0][0], exp, mentioned_not_selected=False,
-                     compare=lambda got, e: H.diff_kind(got, e, ordered=False, multiset=True))
+                     compare=_missing_only)
     return r if r == "K05" else None
+
+
+def _missing_only(got, exp):
+    """instances are a multiset: 'rows missing' also when only a second copy of an equal-valued instance is missing"""
+    g, e = Counter(got), Counter(exp)
+    if g == e:
+        return None
+    return "SET:missing" if not (g - e) else "OTHER"
